@@ -26,10 +26,16 @@ theorem cutFrame_bytes (mf : Nat) (rem : Int) (b : Bytes) (rest : List Chunk) :
   · rfl
 
 theorem cutFrame_queue (mf : Nat) (rem : Int) (b : Bytes) (rest : List Chunk) :
-    (cutFrame mf rem b rest).2 = rest ∨ ∃ x, (cutFrame mf rem b rest).2 = .data x :: rest := by
+    (cutFrame mf rem b rest).2 = rest ∨ ∃ x, x ≠ [] ∧ (cutFrame mf rem b rest).2 = .data x :: rest := by
   unfold cutFrame
   split
-  · right; exact ⟨_, rfl⟩
+  · rename_i h
+    right
+    refine ⟨_, ?_, rfl⟩
+    intro h0
+    have := congrArg List.length h0
+    simp only [List.length_drop, List.length_nil] at this
+    omega
   · left; rfl
 
 theorem cutFrame_progress (mf : Nat) (rem : Int) (b : Bytes) (rest : List Chunk)
@@ -101,6 +107,7 @@ structure StreamOK0 (st : Stream) : Prop where
   fin_finished : st.finished = true → ∃ pre, st.queue = pre ++ [.fin] ∧ Chunk.fin ∉ pre
   conserve : st.wrote = st.sent ++ qbytes st.queue
   fin_active : Chunk.fin ∈ st.queue → st.active = true
+  data_nonempty : ∀ b, Chunk.data b ∈ st.queue → b ≠ []
 
 /-- … and: something queued and both windows open ⇒ schedulable -/
 structure StreamOK (conn : Int) (st : Stream) : Prop extends StreamOK0 st where
@@ -128,6 +135,7 @@ theorem StreamOK0.congr {st st' : Stream} (h : StreamOK0 st) (hq : st'.queue = s
   · rw [hq, hf]; exact h.fin_finished
   · rw [hq, hw, hs]; exact h.conserve
   · rw [hq, ha]; exact h.fin_active
+  · rw [hq]; exact h.data_nonempty
 
 theorem fcb_fields (sid : Nat) (st : Stream) :
     (flowControlBlocked sid st).1.queue = st.queue ∧ (flowControlBlocked sid st).1.active = st.active ∧
@@ -144,9 +152,9 @@ theorem wu_fields (conn : Int) (sid : Nat) (st : Stream) :
 /-- the popped stream after a frame went out -/
 theorem sentStream_ok0 {st : Stream} (h : StreamOK0 st) (b : Bytes) (rest : List Chunk) (hq : st.queue = .data b :: rest)
     (hact : st.active = true) (frame : Bytes) (q : List Chunk) (hb : frame ++ qbytes q = b ++ qbytes rest)
-    (hqq : q = rest ∨ ∃ x, q = .data x :: rest) : StreamOK0 (sentStream st frame q) := by
+    (hqq : q = rest ∨ ∃ x, x ≠ [] ∧ q = .data x :: rest) : StreamOK0 (sentStream st frame q) := by
   have hfin : Chunk.fin ∈ q → Chunk.fin ∈ rest := by
-    rcases hqq with rfl | ⟨x, rfl⟩
+    rcases hqq with rfl | ⟨x, _, rfl⟩
     · exact id
     · intro h; simpa using h
   constructor
@@ -168,7 +176,7 @@ theorem sentStream_ok0 {st : Stream} (h : StreamOK0 st) (b : Bytes) (rest : List
       simp only [List.cons_append, List.cons.injEq] at hp
       obtain ⟨rfl, rfl⟩ := hp
       have hn' : Chunk.fin ∉ pre' := fun hm => hn (List.mem_cons_of_mem _ hm)
-      rcases hqq with rfl | ⟨x, rfl⟩
+      rcases hqq with rfl | ⟨x, _, rfl⟩
       · exact ⟨pre', rfl, hn'⟩
       · exact ⟨.data x :: pre', rfl, by simpa using hn'⟩
   · simp only [sentStream]
@@ -181,6 +189,14 @@ theorem sentStream_ok0 {st : Stream} (h : StreamOK0 st) (b : Bytes) (rest : List
     cases q with
     | nil => exact absurd rfl this
     | cons c q' => simpa using hact
+  · intro x hx
+    simp only [sentStream] at hx
+    have hr : ∀ y, Chunk.data y ∈ rest → y ≠ [] := fun y hy => h.data_nonempty y (by rw [hq]; exact List.mem_cons_of_mem _ hy)
+    rcases hqq with rfl | ⟨x', hx', rfl⟩
+    · exact hr x hx
+    · rcases List.mem_cons.mp hx with hx | hx
+      · cases hx; exact hx'
+      · exact hr x hx
 
 theorem afterSend_proj (s : State) (sid : Nat) (st : Stream) (frame : Bytes) (q : List Chunk) :
     (afterSend s sid st frame q).1.loop = .sched ∧
@@ -394,7 +410,7 @@ theorem blockIfFull_inv (r : State × List Ev) (sid : Nat) (hr : Inv r.1) : Inv 
       · intro hl; rw [hf.2.1]; exact hr.parked hl sid st hst
     · exact hr
 
-theorem writeData_inv (s : State) (hs : Inv s) (sid : Nat) (b : Bytes)
+theorem writeData_inv (s : State) (hs : Inv s) (sid : Nat) (b : Bytes) (hb : b ≠ [])
     (hunf : ∀ st, s.streams sid = some st → st.finished = false) : Inv (writeData s sid b).1 := by
   unfold writeData
   split
@@ -409,6 +425,11 @@ theorem writeData_inv (s : State) (hs : Inv s) (sid : Nat) (b : Bytes)
       rcases List.mem_append.mp hm with hm | hm
       · exact h0.fin_unfinished hf hm
       · simp at hm
+    have hdn : ∀ x, Chunk.data x ∈ st0.queue ++ [Chunk.data b] → x ≠ [] := by
+      intro x hm
+      rcases List.mem_append.mp hm with hm | hm
+      · exact h0.data_nonempty x hm
+      · simp only [List.mem_singleton, Chunk.data.injEq] at hm; rw [hm]; exact hb
     split
     · rename_i hw
       apply wake_inv
@@ -419,6 +440,7 @@ theorem writeData_inv (s : State) (hs : Inv s) (sid : Nat) (b : Bytes)
       · intro h; simp only at h; rw [hf] at h; cases h
       · simp only [qbytes_append, qbytes, h0.conserve, List.append_assoc, List.append_nil]
       · intro _; rfl
+      · exact hdn
     · rename_i hw
       refine hs.set sid _ hdom ?_ ?_ ?_
       · constructor
@@ -427,6 +449,7 @@ theorem writeData_inv (s : State) (hs : Inv s) (sid : Nat) (b : Bytes)
         · intro h; simp only at h; rw [hf] at h; cases h
         · simp only [qbytes_append, qbytes, h0.conserve, List.append_assoc, List.append_nil]
         · intro hm; exact absurd hm hnf
+        · exact hdn
       · intro _ hpos; exact absurd hpos hw
       · intro hl; exact hs.parked hl sid st0 hst
 
@@ -446,6 +469,10 @@ theorem endRequest_inv (s : State) (hs : Inv s) (sid : Nat)
     · intro _; exact ⟨st.queue, rfl, h0.fin_unfinished hf⟩
     · simp only [qbytes_append, qbytes, h0.conserve, List.append_nil]
     · intro _; rfl
+    · intro x hm
+      rcases List.mem_append.mp hm with hm | hm
+      · exact h0.data_nonempty x hm
+      · simp at hm
 
 theorem windowUpdateStream_inv (s : State) (hs : Inv s) (sid n : Nat) : Inv (windowUpdateStream s sid n).1 := by
   unfold windowUpdateStream
@@ -469,6 +496,7 @@ theorem windowUpdateStream_inv (s : State) (hs : Inv s) (sid n : Nat) : Inv (win
         cases hq : st0.queue with
         | nil => rw [hq] at hm; simp at hm
         | cons c q => simp
+      · exact h0.data_nonempty
     refine hs.toPre.set sid _ (hs.dom sid st0 hst) (hbase.congr hf.1 hf.2.1 hf.2.2.1 hf.2.2.2.1 hf.2.2.2.2.1) ?_
     intro hne _
     rw [hf.1] at hne
@@ -499,6 +527,7 @@ theorem windowChanged1_ok (conn : Int) (sid : Nat) (st : Stream) (h0 : StreamOK0
       cases hqq : st.queue with
       | nil => rw [hqq] at hm; simp at hm
       | cons c q => simp
+    · rw [hq]; exact h0.data_nonempty
   · intro hne; rw [hq] at hne; rw [ha]
     cases hqq : st.queue with
     | nil => exact absurd hqq hne
@@ -584,7 +613,7 @@ theorem step_inv (s : State) (hs : Inv s) (op : Op) (r : State × List Ev) (h : 
       · cases h
       · rename_i hc
         cases h
-        refine writeData_inv s hs sid b ?_
+        refine writeData_inv s hs sid b (by intro h0; exact hc (by simp [h0])) ?_
         intro st' hst'
         rw [hst] at hst'; cases hst'
         cases hf : st.finished with
@@ -599,7 +628,7 @@ theorem step_inv (s : State) (hs : Inv s) (op : Op) (r : State × List Ev) (h : 
       · cases h
       · rename_i hc
         cases h
-        refine writeData_inv s hs sid b ?_
+        refine writeData_inv s hs sid b (by intro h0; exact hc (by simp [h0])) ?_
         intro st' hst'
         rw [hst] at hst'; cases hst'
         cases hf : st.finished with
